@@ -332,6 +332,25 @@ def _run_naive(case, ctx):
             ctx.check("naive.oos", list(pa.index) == list(pred.index) and _close(pa.values, pred.values, 1e-12, 1e-12) and int(f.cutoff) == T_label,
                       "naive:forecast-changes-after-an-in-sample-request", "the out-of-sample forecast (or the cutoff) is different after in-sample forecasts were requested",
                       cutoff=f.cutoff, expected_cutoff=T_label, got=pa.values.tolist()[:4], expected=pred.values.tolist()[:4])
+    # the same numbers with the other meaning: after a horizon of relative steps S the absolute time points S (and the other way round)
+    # are a different request and are answered as such
+    if case["nan"] == "none" and not drift_nan:
+        from sktime.forecasting.base import ForecastingHorizon
+        first_abs = bool((case["dseed"] // 3) % 2)
+        nums = [T_label + s_ for s_ in steps] if first_abs else list(steps)
+        steps2 = list(nums) if first_abs else [v - T_label for v in nums]
+        if min(steps2) >= 1 and max(steps2) <= 5000 and steps2 != list(steps):
+            arg2 = list(nums) if first_abs else ForecastingHorizon(list(nums), is_relative=False)
+            ok, _ = ctx.call("naive:predict-exception", f.predict, _fharg(case, T_label, steps))
+            ok2, p2 = ctx.call("naive:predict-exception", f.predict, arg2) if ok else (False, None)
+            if ok2:
+                ref2 = [_naive_ref(yl, strategy, sp, wl, h) for h in steps2]
+                good = list(p2.index) == [T_label + h for h in steps2] and (_close(p2.values, ref2, 1e-9, 1e-9) or (strategy == "mean" and sp > 1 and w_eff % sp != 0))
+                ctx.check("naive.oos", good, "naive:same-numbers-other-meaning:answered-as-the-previous-horizon",
+                          "a horizon with the same numbers but the other meaning (relative steps / absolute time points) than the previous request was not answered as asked",
+                          previous="absolute" if first_abs else "relative", numbers=nums[:5], got_index=list(p2.index)[:5], expected_index=[T_label + h for h in steps2][:5],
+                          got=p2.values.tolist()[:5], expected=ref2[:5])
+                ctx.tag("naive:same-numbers-other-meaning")
     # the same definition after an update: the window is the last window of everything observed, whatever update_params is
     then = (case["dseed"] // 2) % 3
     if then and case["nan"] == "none":
